@@ -32,7 +32,7 @@ HARNESSES = [
       bounds='MODE 1: every height 17..2^31-1; MODE 2: every 1/3/4-byte (thorough 1..5) pushed value, coinbase scriptSig of 4/6 symbolic bytes; MODE 3: the composed CScript()<<h on 32 concrete heights (0..16 and all length-class boundaries) only'),
     H('sigcost', 'sigcost.cpp', 'h_sigcost', link=['consensus/tx_verify.cpp', 'script/interpreter.cpp', 'script/script.cpp', 'primitives/transaction.cpp', 'uint256.cpp', 'hash.cpp'],
       variants=[{'SPK': 0, 'SSLEN': 2, 'SIG': 'S,S', 'CLEN': 2}, {'SPK': 1, 'SSLEN': 3, 'SIG': '0x02,S,S', 'W_REDEEM': 1}, {'SPK': 1, 'SSLEN': 3, 'SIG': '0x01,S,0xac', 'W_TRAILOP': 1}, {'SPK': 1, 'SSLEN': 3, 'SIG': '0x01,S,0x51', 'W_TRAILN': 1},
-                {'SPK': 1, 'SSLEN': 23, 'WRAP': 1}, {'SPK': 1, 'SSLEN': 24, 'WRAP': 1, 'WRAPPRE': 1}, {'SPK': 2, 'SSLEN': 1, 'SIG': 'S'}, {'SPK': 3, 'SSLEN': 0, 'WN': 2, 'WLEN': 3},
+                {'SPK': 1, 'SSLEN': 23, 'WRAP': 1}, {'SPK': 1, 'SSLEN': 24, 'WRAP': 1, 'WRAPPRE': 1}, {'SPK': 2, 'SSLEN': 1, 'SIG': 'S'}, {'SPK': 3, 'SSLEN': 0, 'WN': 2, 'WLEN': 3}, {'SPK': 3, 'SSLEN': 0, 'WN': 1, 'WLEN': 3},
                 {'COINBASE': 1, 'SPK': 1, 'SSLEN': 3, 'SIG': '0x02,S,S'}],
       tvariants=[{'SPK': 0, 'SSLEN': 2, 'SIG': 'S,S', 'CLEN': 2}, {'SPK': 0, 'SSLEN': 4, 'SIG': 'S,S,S,S', 'CLEN': 4}, {'SPK': 1, 'SSLEN': 3, 'SIG': '0x02,S,S', 'W_REDEEM': 1}, {'SPK': 1, 'SSLEN': 5, 'SIG': '0x04,S,S,S,S', 'W_REDEEM': 1},
                  {'SPK': 1, 'SSLEN': 5, 'SIG': '0x4c,0x03,S,S,S', 'W_REDEEM': 1}, {'SPK': 1, 'SSLEN': 6, 'SIG': '0x01,S,0x51,0x02,S,S', 'W_REDEEM': 1}, {'SPK': 1, 'SSLEN': 3, 'SIG': '0x01,S,0xac', 'W_TRAILOP': 1}, {'SPK': 1, 'SSLEN': 3, 'SIG': '0x01,S,0x51', 'W_TRAILN': 1},
